@@ -33,6 +33,10 @@ CHECKS = {
    text="After every action of TLC-simulated histories each involved object answers a query battery identically live, on a deep copy and live again; behaviours are re-run in fresh interpreters with other PYTHONHASHSEED values and cold/pre-warmed memo tables and observation logs must coincide.", ref="6/C10"),
  "C11": dict(tech="TLC model checking of the PlusCal model of non-atomic calls (Calls.tla) + sys.monitoring fault injection at internal call boundaries + TLC validation of recorded mutation-event traces (TraceCalls.tla)",
    text="TLC checks Intact at every crash point of the repaired design and refutes the pinned in-place-inversion design; in the implementation an exception / KeyboardInterrupt is raised at sampled internal call boundaries of operators, containment, ==, integrals, copies and queries, after which operands are compared with the specification record and query battery and the call is repeated; recorded in-place mutations of operands are validated by TLC against Calls; invalid arguments of move/scale/rotate via BadTransform actions.", ref="3.3, 5.3, 6/C11"),
+ "C12": dict(tech="TLC heap model with frames + the same TLC-computed behaviours replayed under similarity realisations (scale 1e-3..1e5, translation to 1e6, rotations)",
+   text="The specification behaviour is the expected result for every similarity map: T-class operator rows, containment rows and point membership are re-executed with atoms constructed at other scales, places and orientations (polygon float / Fraction, quadratic), and every assertion must hold as at scale 1; Fraction atoms under rational maps must be exact.", ref="6/C12"),
+ "C13": dict(tech="TLC-checked exact moment algebra (Plane) + exact comparison of every control point and moment under int/Fraction realisations",
+   text="Under integer / Fraction realisations (denominators up to 1e4, rational rotation, move/scale programs) every control point of every operator result must equal the exact rational image of its grid point and be int/Fraction typed; moments must be the exact rationals.", ref="6/C13"),
  "C19": dict(tech="TLC heap model (MakeRegion) + direct constructors in permuted orders against operator-built objects and the specification record",
    text="For every region with >= 2 boundary curves the direct ConnectedShape/DisjointShape constructions in permuted orders (with Empty entries) are compared with the specification record, with the operator-built object (== both ways), with complements; collapse rules (single member copy, empty list).", ref="6/C19"),
 }
